@@ -9,7 +9,7 @@
 
   Ops
     jl.tordf  <mode:10|11> <base x<hex>|-> <json>          → ok:<quads> | outside
-    jl.write  <mode> <base> <choices> <context json|-> <quads> → ok:<json> <base>   (Spec.JsonLdWriter.write)
+    jl.write  <mode> <base> <choices> <context json|-> <local context json|-> <quads> → ok:<json> <path> <quads|outside>   (Spec.JsonLdWriter.write)
     jl.encode <base> <prefixes> <buffered> <hint> <quads>   → ok:<json>            (Model.JsonLdEncoder.encode)
     jl.cert   <mode> <doc base> <base> <prefixes> <buffered> <hint> <quads> → cert=… dg=… nonative=… wf=… acyclic=… clash=…
 -/
@@ -153,12 +153,12 @@ def parseBase (s : String) : Option (Option L) :=
   if s = "-" then some none else (runesTok s).map some
 
 /-- choices token `<nest><lists><anonTop><natives><useType><compactGroups>:<shape>:<seed>` -/
-def parseChoices (mode11 : Bool) (base : Option L) (ctx : Option Json) (s : String) : Option Choices :=
+def parseChoices (mode11 : Bool) (base : Option L) (ctx loc : Option Json) (s : String) : Option Choices :=
   match s.splitOn ":" with
   | [flags, shape, seed] =>
     match flags.toList.map (· == '1'), shape.toNat?, seed.toNat? with
     | [nest, lists, anonTop, natives, useType, compactGroups], some shape, some seed =>
-      some { mode11, base, context := ctx, nest, lists, anonTop, natives, useType, compactGroups, shape, seed }
+      some { mode11, base, context := ctx, localContext := loc, nest, lists, anonTop, natives, useType, compactGroups, shape, seed }
     | _, _, _ => none
   | _ => none
 
@@ -200,11 +200,12 @@ def handle (op : String) (args : List String) : Option String :=
     let acyclic := decide (C17.Acyclic1 (d.map (·.t)))
     pure ("cert=" ++ b01 cert ++ " dg=" ++ b01 (defaultGraphOnly d) ++ " nonative=" ++ b01 (noNativeTyped d) ++
       " wf=" ++ b01 (decide (WFDataset d)) ++ " acyclic=" ++ b01 acyclic ++ " clash=" ++ b01 (schemeClash cfg d))
-  | "write", [m, b, chs, cj, qs] => do
+  | "write", [m, b, chs, cj, lj, qs] => do
     let m ← parseMode m
     let b ← parseBase b
     let cj ← (if cj = "-" then some none else (parseJson cj).map some)
-    let ch ← parseChoices m b cj chs
+    let lj ← (if lj = "-" then some none else (parseJson lj).map some)
+    let ch ← parseChoices m b cj lj chs
     let d ← parseQuads qs
     let doc := write (fun (l : L) => l) d ch
     let path := match tryWrite (fun (l : L) => l) d ch with
